@@ -15,7 +15,7 @@ PROPERTY = "C14"
 
 META = {
     "bounds": {
-        "quick": "24 structural error statements x 3 insertion positions in a 3-statement base program x 6 entry points; 6 value-dependent statement kinds with a symbolic 24-bit value x 6 entry points; valid programs x 6 entry points",
+        "quick": "24 structural error statements x 3 insertion positions in a 3-statement base program x 6 entry points; the same statements inside 9 wrappers expanded at code-generation time (taken .if / else, macro body, code argument, loop body, nested blocks, named scope) x 2 entry points; 6 value-dependent statement kinds with a symbolic 24-bit value x 6 entry points; valid programs x 6 entry points",
         "thorough": "same with 4 insertion positions and two base programs",
     },
     "outside": ["argparse itself and the OS process boundary (exercised concretely by --replay through `python -m a816.cli`)", "error classes not listed in the property"],
@@ -55,6 +55,18 @@ STRUCTURAL = {
     "text-without-table": ".text 'abc'",
 }
 
+WRAPPERS = {
+    "if-taken": ".if 1 {\n%s\n}",
+    "if-else-taken": ".if 0 {\nnop\n} else {\n%s\n}",
+    "if-undefined-cond-else": ".if nosuchcondition {\nnop\n} else {\n%s\n}",
+    "macro-body": ".macro wrapm() {\n%s\n}\nwrapm()",
+    "macro-code-arg": ".macro wrapc(c) {\n{{c}}\n}\nwrapc({\n%s\n})",
+    "for-body": ".for i := 0, 2 {\n%s\n}",
+    "block": "{\n{\n%s\n}\n}",
+    "named-scope": ".scope wns {\n%s\n}",
+    "if-in-macro-in-for": ".macro wrapi(x) {\n.if x {\n%s\n}\n}\n.for i := 1, 2 {\nwrapi(i)\n}",
+}
+
 VALUE = ["jsr-width", "ldx-width", "rep-width", "branch-range", "star-unmapped", "valid"]
 ENTRIES = ["string", "with_emitter", "assemble", "as_patch", "cli-ips", "cli-sfc"]
 
@@ -69,6 +81,13 @@ def jobs(tier, seed):
             for pos in positions:
                 for en in ENTRIES:
                     out.append({"id": f"b{bi}/{ek}/at{pos}/{en}", "fam": "structural", "base": bi, "err": ek, "pos": pos, "entry": en})
+    # the same error statements inside constructs that are expanded at code-generation time
+    for ek, stmt in STRUCTURAL.items():
+        if "{" in stmt or "}" in stmt or ek.startswith("lex-unterminated"):
+            continue
+        for wn in WRAPPERS:
+            for en in ("string", "cli-ips"):
+                out.append({"id": f"wrapped/{wn}/{ek}/{en}", "fam": "structural", "base": 0, "err": ek, "pos": 2, "entry": en, "wrapper": wn})
     for vk in VALUE:
         for en in ENTRIES:
             out.append({"id": f"value/{vk}/{en}", "fam": "value", "vk": vk, "entry": en})
@@ -178,7 +197,10 @@ def build(spec, cx):
     """(source, symbols, error predicate: True | False | z3 Bool, defined predicate)."""
     if spec["fam"] == "structural":
         lines = list(BASES[spec["base"]])
-        lines.insert(spec["pos"], STRUCTURAL[spec["err"]])
+        stmt = STRUCTURAL[spec["err"]]
+        if spec.get("wrapper"):
+            stmt = WRAPPERS[spec["wrapper"]] % stmt
+        lines.insert(spec["pos"], stmt)
         return "\n".join(lines) + "\n", {}
     vk = spec["vk"]
     v = cx.int("v", 0, 0xFFFFFF)
